@@ -445,8 +445,8 @@ def write_project(root, pr):
             f.write(text)
 
 
-def run_project(root, mode, cfgs, timeout=600):
-    out = os.path.join(root, "_c15_%s.json" % mode)
+def run_project(root, mode, cfgs, timeout=600, tag=""):
+    out = os.path.join(root, "_c15_%s%s.json" % (mode, tag))
     env = dict(os.environ)
     env["PYTHONPATH"] = common.REPO
     env["PYTHONHASHSEED"] = "0"
@@ -477,6 +477,24 @@ def make_cfgs(rng, pr, n, kind):
     return cfgs
 
 
+SLOT_RE = re.compile(r"^(load|store) (\d+)$")
+
+
+def canon_slots(teal):
+    """TEAL text with scratch-slot immediates renamed in order of first occurrence: two programs that
+    differ only by a consistent (injective) renaming of slot numbers have the same canonical text."""
+    ren = {}
+    out = []
+    for l in teal.split("\n"):
+        m = SLOT_RE.match(l)
+        if m:
+            k = ren.setdefault(m.group(2), len(ren))
+            out.append("%s #%d" % (m.group(1), k))
+        else:
+            out.append(l)
+    return "\n".join(out)
+
+
 MARK_RE = re.compile(r"^(?:int|pushint) (\d+)(?:\s|$)|^intc(?:_\d| \d+) // (\d+)\s*$")
 BLANK_COMMENT = re.compile(r"^[ \t\r\x0b\x0c]+//")
 
@@ -497,7 +515,12 @@ def check_program(ck, model, root, pr, cfg, pm, pp, where, stats):
     if teal != pm["same_ast_plain"]:
         bad.append(("TEAL with source map differs from compileTeal of the same AST", {"with": teal[:3000], "without": pm["same_ast_plain"][:3000]}, None))
     if teal != pp["teal"]:
-        bad.append(("TEAL with source map differs from the TEAL of a process where source mapping is disabled", {"with": teal[:3000], "without": pp["teal"][:3000]}, None))
+        kid = None
+        if cfg["kind"] == "router" and canon_slots(teal) == canon_slots(pp["teal"]):
+            kid = "gate-renumbers-slots"
+        first = next((i for i, (x, y) in enumerate(zip(lines, pp["teal"].split("\n"))) if x != y), None)
+        bad.append(("TEAL of a process with source mapping enabled differs from the TEAL of a process where it is disabled (first difference at line %s)" % (first if first is None else first + 1),
+                    {"with": teal[:6000], "without": pp["teal"][:6000], "first_diff_line": first}, kid))
     # 2. one entry per TEAL line, in order
     if pm["index"] != [[0]] * n:
         bad.append(("index is not exactly one column-0 entry per TEAL line", {"lines": n, "index_len": len(pm["index"]), "first_bad": next((i for i, x in enumerate(pm["index"]) if x != [0]), None)}, None))
@@ -641,20 +664,31 @@ def run_and_check(ck, model, projects):
              "shape_other": 0, "teal_lines_not_clean": 0, "source_files": 0, "max_source_lines": 0, "compile_errors_both_modes": 0, "_seen": set()}
     findings = []    # (what, detail, known_id, root, pr, cfg)
     with concurrent.futures.ThreadPoolExecutor(max_workers=min(NPROC, 14)) as ex:
+        # one FRESH interpreter per (project, configuration, mode): nothing but the feature gate differs
         futs = {}
         for (root, pr, cfgs, kind, prof) in projects:
-            futs[(root, "map")] = ex.submit(run_project, root, "map", cfgs)
-            futs[(root, "plain")] = ex.submit(run_project, root, "plain", cfgs)
+            for ci, cfg in enumerate(cfgs):
+                futs[(root, "map", ci)] = ex.submit(run_project, root, "map", [cfg], 600, "_%d" % ci)
+                futs[(root, "plain", ci)] = ex.submit(run_project, root, "plain", [cfg], 600, "_%d" % ci)
         results = {k: f.result() for k, f in futs.items()}
+    stats["interpreter_processes"] = len(results)
     for (root, pr, cfgs, kind, prof) in projects:
         stats["projects"] += 1
         stats["source_files"] += len([f for f in pr["files"] if not f.endswith("__init__.py")])
         stats["max_source_lines"] = max([stats["max_source_lines"]] + [t.count("\n") for t in pr["files"].values()])
-        rm, logm = results[(root, "map")]
-        rp, logp = results[(root, "plain")]
-        if rm is None or rp is None:
-            findings.append(("generated project could not be run (%s process died)" % ("map" if rm is None else "plain"),
-                             {"log_map": logm, "log_plain": logp}, None, root, pr, None))
+        rm, rp = [], []
+        died = None
+        for ci, cfg in enumerate(cfgs):
+            a_, la = results[(root, "map", ci)]
+            b_, lb = results[(root, "plain", ci)]
+            if a_ is None or b_ is None:
+                died = ("map" if a_ is None else "plain", la, lb)
+                break
+            rm.append(a_[0])
+            rp.append(b_[0])
+        if died:
+            findings.append(("generated project could not be run (%s process died)" % died[0],
+                             {"log_map": died[1], "log_plain": died[2]}, None, root, pr, None))
             continue
         for cfg, cm, cp in zip(cfgs, rm, rp):
             stats["configs"] += 1
@@ -753,13 +787,27 @@ def replay(ck, path, tmp):
     else:
         print("replay: nothing executable in %s (kind=%r): %s" % (path, kind, r.get("what")))
         ck.violation(r.get("what", "recorded violation"), r, no_failing_input=True)
-    return ck.finish(level="proof", rule="replay of one recorded case", trusted_base=[])
+    # a replay never overwrites the evidence of the last full run
+    for fid, what in ck.known_seen:
+        print("KNOWN-FINDING: property=C15 %s" % what)
+    for what, p_, nofail in ck.violations:
+        print("VIOLATION property=C15 replay=%s%s" % (p_, " no-failing-input-found" if nofail else ""))
+        print("  (%s)" % what[:300])
+    print("C15 replay: %d violations" % len(ck.violations))
+    return 1 if ck.violations else 0
 
 
 def main(argv):
+    import signal
     args = parse_args(argv)
     ck = Check("C15", args.tier)
     thorough = args.tier == "thorough"
+
+    def too_long(signum, frame):
+        raise TimeoutError("C15 check exceeded its wall-clock budget (a model request or a child process hangs)")
+
+    signal.signal(signal.SIGALRM, too_long)
+    signal.alarm(3000 if thorough else 900)
     tmp = tempfile.mkdtemp(prefix="c15_")
     try:
         if args.replay:
@@ -813,14 +861,16 @@ def run_check(ck, thorough, tmp):
         stats, findings = validate_projects(ck, model, tmp, thorough)
         # ---------------- 4. known findings replayed against the real code ----------------
         kprojects = []
-        for fid, mk in (("internal-path-substring", c15_gen.known_internal_path_project), ("annotate-trailing-blanks", c15_gen.known_trailing_blanks_project)):
+        for fid, mk, kd, ver in (("internal-path-substring", c15_gen.known_internal_path_project, "expr", 8),
+                                 ("annotate-trailing-blanks", c15_gen.known_trailing_blanks_project, "expr", 8),
+                                 ("gate-renumbers-slots", c15_gen.known_gate_slots_project, "router", 7)):
             if ck.match_known(lambda f: f["id"] == fid):
                 pr = mk()
                 root = os.path.join(tmp, "known_" + fid)
                 write_project(root, pr)
-                cfg = {"kind": "expr", "app": True, "version": 8, "assemble_constants": False, "scratch_slots": False, "frame_pointers": None,
+                cfg = {"kind": kd, "app": True, "version": ver, "assemble_constants": False, "scratch_slots": False, "frame_pointers": None,
                        "teal_filename": None, "annotate": True, "headers": False, "concise": True}
-                kprojects.append((root, pr, [cfg], "expr", {}))
+                kprojects.append((root, pr, [cfg], kd, {}))
         kstats, kfind = run_and_check(ck, model, kprojects) if kprojects else ({}, [])
         ck.coverage["known_replay_projects"] = len(kprojects)
         findings += kfind
@@ -828,6 +878,11 @@ def run_check(ck, thorough, tmp):
         ck.coverage["implementation_validation (NOT proof)"] = stats
     # ---------------- 3/5. verdict ----------------
     real_failures = vlq_prop + r3_prop
+    uniq = []
+    for f in real_failures:
+        if f not in uniq:
+            uniq.append(f)
+    real_failures = uniq
     for f in real_failures[:4]:
         ck.violation("%s fails on the real implementation" % ("VLQ decode(encode(l)) = l" if f["kind"] == "vlq-roundtrip" else "from_json(to_json(m)) = m"), f)
     report_findings(ck, findings)
